@@ -129,6 +129,8 @@ def run(prog: Program, chk: Check):
     res = const_resolver(prog, rm.module)
     consts = prog.module_constants(CORE)
     env = ty.locals_of(rm)
+    rmcm = guards.copy_map(rm.node)  # `payload_size = header.num_data_bytes` and similar locals are looked through
+    sub_paths = lambda ps: [[(guards.subst(e_, rmcm), pol_) for e_, pol_ in p_] for p_ in ps]
 
     def hdr_read(n):
         for c in node_calls(n):
@@ -174,9 +176,9 @@ def run(prog: Program, chk: Check):
         for c in node_calls(n):
             if is_method_call(c, ("recv", "recv_into")) and path_of(recv_of(c)) == "self._sock" and c is not hc:
                 size = c.args[0] if c.func.attr == "recv" else (c.args[1] if len(c.args) > 1 else None)
-                if size is not None and norm(size) == f"{hv}.num_data_bytes" and has_waitall(c):
+                if size is not None and norm(guards.subst(size, rmcm)) == f"{hv}.num_data_bytes" and has_waitall(c):
                     return True
-            elif isinstance(c.func, ast.Attribute) and path_of(recv_of(c)) == "self" and c.args and norm(c.args[0]) == f"{hv}.num_data_bytes":
+            elif isinstance(c.func, ast.Attribute) and path_of(recv_of(c)) == "self" and c.args and norm(guards.subst(c.args[0], rmcm)) == f"{hv}.num_data_bytes":
                 st, fi, _ = ty.callee(rm, c)
                 if fi is not None and drain_wrapper(fi):
                     return True
@@ -198,8 +200,8 @@ def run(prog: Program, chk: Check):
             nm = norm(e).split(".")[-1]
             if nm in ("UnknownMessageType", "InvalidMessageDefinition"):
                 raises.append((n, nm))
-    if len(raises) < 3:
-        raise AnalysisError(f"anchor vanished: expected >=3 decode-error raises in _read_message, found {len(raises)}")
+    if len(raises) < 2:
+        raise AnalysisError(f"anchor vanished: expected >=2 decode-error raises in _read_message, found {len(raises)}")
     for n, nm in raises:
         lo, hi = flow.count_on_paths(g, is_drain, [hn.id], [n.id])
         D.decide((lo, hi) == (1, 1), fkey(rm, n.ast), where(rm, n.ast), f"{nm}: exactly one drain between header read and raise",
@@ -217,7 +219,7 @@ def run(prog: Program, chk: Check):
         pn = P[0]
         pc = payload_read(pn)
         size = norm(pc.args[1])
-        paths = gs.at(pn)
+        paths = sub_paths(gs.at(pn))
         goal = guards.parse(f"{size} == {hv}.num_data_bytes")
         D.decide(not guards.any_path_implies(paths, goal) and has_waitall(pc), fkey(rm, "success:payload-size"), where(rm, pc),
                  f"payload receive of `{size}` bytes is dominated by {size} == {hv}.num_data_bytes (MSG_WAITALL)",
@@ -225,7 +227,7 @@ def run(prog: Program, chk: Check):
         lo, hi = flow.count_on_paths(g, [pn], [hn.id], [rn.id])
         # paths that skip the payload read must have a zero-length payload
         gs2 = flow.guard_states(g, edge_filter=lambda e: not (e.src == pn.id and e.kind != "exc"))
-        skip_paths = gs2.at(rn)
+        skip_paths = sub_paths(gs2.at(rn))
         goal0 = guards.parse(f"not {hv}.num_data_bytes")
         bad = guards.any_path_implies(skip_paths, goal0)
         D.decide(hi <= 1 and not bad, fkey(rm, "success:payload-once-or-empty"), where(rm, rn.ast),
@@ -366,7 +368,8 @@ def run(prog: Program, chk: Check):
                 F.bad(fkey(rd, n.ast), where(rd, n.ast), f"read_message returns a computed value `{norm(n.ast.value)}`; filter cannot be established")
                 continue
             goal = guards.parse(f"self._sub_all or (not {mv}) or ({mv}.header.msg_type in self._subscribed_types) or (ack and {mv}.header.msg_type == {ack})")
-            paths = [[(guards.fold_consts(inline_props(e, props), fres), pol) for e, pol in p] for p in fgs.at(n)]
+            rcm = guards.copy_map(rd.node)  # `msg_type = msg.header.msg_type` is looked through
+            paths = [[(guards.fold_consts(inline_props(guards.subst(e, rcm), props), fres), pol) for e, pol in p] for p in fgs.at(n)]
             bad = guards.any_path_implies(paths, goal)
             F.decide(not bad, fkey(rd, n.ast), where(rd, n.ast), "filter dominates the return",
                      "a message can be returned without passing the subscription filter; guards on that path: "
@@ -389,12 +392,14 @@ def run(prog: Program, chk: Check):
     for n, nm in raises:
         if nm != "InvalidMessageDefinition":
             continue
-        paths = gs.at(n)
+        paths = sub_paths(gs.at(n))
         j1 = not guards.any_path_implies(paths, size_bad)
         j2 = not guards.any_path_implies(paths, ver_bad)
-        V.decide(j1 or j2, fkey(rm, n.ast), where(rm, n.ast), "raise justified by " + ("size mismatch" if j1 else "version mismatch under sync_check"),
+        # one raise site may serve both reasons (`if mismatch is not None: drain; raise`): every path needs one of them
+        j3 = not guards.any_path_implies(paths, guards.parse(f"({norm(size_bad)}) or ({norm(ver_bad)})"))
+        V.decide(j1 or j2 or j3, fkey(rm, n.ast), where(rm, n.ast), "raise justified by " + ("size mismatch" if j1 else "version mismatch under sync_check" if j2 else "size or version mismatch"),
                  "InvalidMessageDefinition raised under a condition that is neither the size mismatch nor (sync_check and version != 0 and version != type_hash)")
-    paths = gs.at(rn)
+    paths = sub_paths(gs.at(rn))
     V.decide(not guards.any_path_implies(paths, guards.parse(f"not ({ts} != {hv}.num_data_bytes)")), fkey(rm, "success:size-agrees"), where(rm, rn.ast),
              "success implies the sizes agree", "a frame whose size differs from the local definition can be returned")
     V.decide(not guards.any_path_implies(paths, guards.parse(f"not (sync_check and {hv}.version != 0 and {hv}.version != {dv}.type_hash)")),
